@@ -20,7 +20,7 @@ ASSUMPTIONS = ['a blocked constructor for an unknown context is judged by C20, h
 SHRINK = 'greedy'
 SHRINK_RUNS = 10
 TIME_BUDGET = {'quick': 170, 'thorough': 1700}
-REQUIRED = {'quick': {'op:create_duplicate': 30, 'op:delete': 60, 'op:start_worker': 80, 'op:start_worker_unknown': 20, 'op:delete_unknown': 20, 'recreate_after_delete': 20, '>=2_live_workers_in_one_context': 60,
+REQUIRED = {'quick': {'op:create_duplicate': 30, 'op:delete': 60, 'op:start_worker': 80, 'op:start_worker_unknown': 20, 'op:delete_unknown': 20, 'recreate_after_delete': 10, 'default_call_after_override': 15, '>=2_live_workers_in_one_context': 60,
                       'worker_result_checked': 60},
             'thorough': {'op:create_duplicate': 300, 'op:delete': 600, 'op:start_worker': 800}}
 TARGETS = {'t1': vtargets.ctx_t1, 't2': vtargets.ctx_t2}
@@ -43,7 +43,8 @@ def strategy(tier):
         st.tuples(st.just('delete'), i), st.tuples(st.just('delete_unknown'), i),
         st.tuples(st.just('start_worker'), i), st.tuples(st.just('start_worker'), i), st.tuples(st.just('start_worker'), i, st.sampled_from([2, 3])),
         st.tuples(st.just('start_worker_unknown'), i),
-        st.tuples(st.just('enqueue'), st.integers(0, 5), st.integers(0, 99)), st.tuples(st.just('enqueue'), st.integers(0, 5), st.integers(0, 99)),
+        st.tuples(st.just('enqueue'), st.integers(0, 5), st.integers(0, 99)), st.tuples(st.just('enqueue'), st.integers(0, 5), st.integers(0, 99), st.sampled_from([4, 7])),
+        st.tuples(st.just('enqueue'), st.integers(0, 5), st.integers(0, 99), st.sampled_from([None, 4, 7])),    # per-call keyword override of the context's default
         st.tuples(st.just('enqueue'), st.integers(0, 5), st.integers(0, 99)), st.tuples(st.just('wait'), st.integers(0, 5)))
     first = st.tuples(st.just('create'), st.just(1), st.sampled_from(['t1', 't2']), st.sampled_from([None, 5]))
     return st.fixed_dictionaries({'ops': st.builds(lambda f, rest: [list(f)] + [list(r) for r in rest], first, st.lists(op, min_size=1, max_size=9))})
@@ -164,8 +165,22 @@ def run_case(case, ctx):
                         continue
                     rec = live[op[1] % len(live)]
                     x = op[2]
-                    v = bounded(rec['w'].call, 25, x)
-                    exp = TARGETS[rec['t']](x, **({'k': rec['k']} if rec['k'] is not None else {}))
+                    over = op[3] if len(op) > 3 else None
+                    if over is not None:
+                        v = bounded(rec['w'].call, 25, x, k=over)
+                        exp = TARGETS[rec['t']](x, k=over)
+                        rec['overridden'] = True
+                        out.label('call_overrides_context_default')
+                        if v == exp:
+                            # ... and the very next call without the keyword is served with the context's own default again
+                            v = bounded(rec['w'].call, 25, x)
+                            exp = TARGETS[rec['t']](x, **({'k': rec['k']} if rec['k'] is not None else {}))
+                            out.label('default_call_after_override')
+                    else:
+                        v = bounded(rec['w'].call, 25, x)
+                        exp = TARGETS[rec['t']](x, **({'k': rec['k']} if rec['k'] is not None else {}))
+                        if rec.get('overridden'):
+                            out.label('default_call_after_override')
                     out.label('worker_result_checked')
                     if v != exp:
                         out.viol('context_worker_wrong_result', 'enqueue', f'worker of context {rec["id"]} ({rec["t"]}, k={rec["k"]}): call({x}) -> {v!r}, expected {exp!r}')
